@@ -1,6 +1,6 @@
 #!/venv/bin/python
 """tools/wave_setup.py <agents.json> <wave dir>  -- for every agent of the file ({id, prop, places, style, defects}) create the scratch
-worktree <wave dir>/<id> of /repo (detached HEAD) and the brief <wave dir>/<id>.full.txt from tools/wave9_brief.txt; the property part
+worktree <wave dir>/<id> of /repo (detached HEAD) and the brief <wave dir>/<id>.full.txt from tools/wave9_brief.txt (or tools/$BRIEF); the property part
 of a brief is the property's title, statement and quantifier text from /verif/properties.jsonl -- nothing else of /verif reaches an agent.
 Afterwards: tools/wave_eval.py (see there), `git -C /repo worktree remove --force <dir>` for every worktree, `git -C /repo worktree prune`."""
 import json, os, subprocess, sys
@@ -9,7 +9,7 @@ agents = json.load(open(sys.argv[1]))
 wd = sys.argv[2]
 os.makedirs(wd, exist_ok=True)
 props = {json.loads(l)["id"]: json.loads(l) for l in open(os.path.join(VERIF, "properties.jsonl"))}
-tmpl = open(os.path.join(VERIF, "tools", "wave9_brief.txt")).read()
+tmpl = open(os.path.join(VERIF, "tools", os.environ.get("BRIEF", "wave9_brief.txt"))).read()
 for a in agents:
     wt = os.path.join(wd, a["id"])
     if not os.path.isdir(wt):
